@@ -140,17 +140,41 @@ Definition py_replace (old new s : str) : str := replace_skip old new O s.
 (* openpyxl quote_sheetname *)
 Definition quote_sheetname (s : str) : str :=
   39 :: py_replace [39] [39; 39] s ++ [39].
-(* AddressMixin.quote_sheet: only names with a space are quoted *)
-Definition quote_sheet (s : str) : str :=
-  if mem 32 s then quote_sheetname s else s.
+(* str.isalnum() of one character where the model decides it (same policy as Lib/Py.v's
+   case_known): ASCII and Latin-1 exactly (Unicode 15: the letters, the ordinal indicators and micro
+   sign, the superscript digits and the vulgar fractions of Latin-1 are alphanumeric), the CJK unified
+   ideographs (letters), the pictograph planes (symbols); None: not decided *)
+Definition isalnum_char (c : Z) : option bool :=
+  if c <? 128 then Some (is_digit c || is_alpha c)
+  else if c <=? 255 then
+    Some (((192 <=? c) && negb (c =? 215) && negb (c =? 247))
+          || mem c [170; 178; 179; 181; 185; 186; 188; 189; 190])
+  else if (19968 <=? c) && (c <=? 40959) then Some true
+  else if (127744 <=? c) && (c <=? 129791) then Some false
+  else None.
+(* c.isalnum() or c in '_.' *)
+Definition plain_char (c : Z) : option bool :=
+  if (c =? 95) || (c =? 46) then Some true else isalnum_char c.
+Definition char_needs_quote (c : Z) : bool := match plain_char c with Some false => true | _ => false end.
+Definition char_undecided (c : Z) : bool := match plain_char c with None => true | _ => false end.
+(* not all(c.isalnum() or c in '_.' for c in sheet): one character that certainly is neither
+   decides it whatever the others are; otherwise an undecided character leaves it Unmodelled *)
+Definition quote_needed (s : str) : res bool :=
+  if existsb char_needs_quote s then Ok true
+  else if existsb char_undecided s then Raise Unmodelled
+  else Ok false.
+(* AddressMixin.quote_sheet (after 4860474): a name is quoted unless it consists of
+   letters, digits, '_' and '.' *)
+Definition quote_sheet (s : str) : res str :=
+  q <- quote_needed s ;; Ok (if q then quote_sheetname s else s).
 
 (* the three printed forms *)
 Definition address (a : addr) : str :=
   if nonempty (a_sheet a) then a_sheet a ++ 33 :: coordinate a else coordinate a.
-Definition quoted_address (a : addr) : str :=
-  quote_sheet (a_sheet a) ++ 33 :: coordinate a.
-Definition abs_address (a : addr) : str :=
-  quote_sheet (a_sheet a) ++ 33 :: abs_coordinate a.
+Definition quoted_address (a : addr) : res str :=
+  q <- quote_sheet (a_sheet a) ;; Ok (q ++ 33 :: coordinate a).
+Definition abs_address (a : addr) : res str :=
+  q <- quote_sheet (a_sheet a) ;; Ok (q ++ 33 :: abs_coordinate a).
 
 (* ---------------------------------------------------------- parsing *)
 Definition starts39 (s : str) : bool :=
